@@ -333,9 +333,9 @@ fn run_sequence(steps: &[Step]) -> Result<String, String> {
     Ok(summary)
 }
 
-fn long_chain(n: usize) -> Result<(), String> {
+fn long_chain(n: usize, stack: usize) -> Result<(), String> {
     let r = std::thread::Builder::new()
-        .stack_size(2 * 1024 * 1024)
+        .stack_size(stack)
         .spawn(move || {
             let ledger = Arc::new(Ledger::default());
             let (u, _) = build(&ledger);
@@ -475,7 +475,41 @@ fn parse_steps(j: &J) -> Option<Vec<Step>> {
         .collect()
 }
 
+/// Run a long chain in a child process (a stack overflow kills the process, not the explorer).
+fn long_chain_child(n: usize, stack: usize) -> Result<(), String> {
+    use std::os::unix::process::ExitStatusExt;
+    let out = std::process::Command::new(std::env::current_exe().unwrap())
+        .arg("--long-chain")
+        .arg(n.to_string())
+        .arg(stack.to_string())
+        .output()
+        .map_err(|e| format!("cannot spawn child: {e}"))?;
+    if let Some(sig) = out.status.signal() {
+        return Err(format!(
+            "the process died by signal {sig} while lending / releasing {n} values on a {stack} byte stack: {}",
+            String::from_utf8_lossy(&out.stderr).lines().last().unwrap_or("")
+        ));
+    }
+    if !out.status.success() {
+        return Err(String::from_utf8_lossy(&out.stdout).trim().to_string());
+    }
+    Ok(())
+}
+
 fn main() {
+    let args: Vec<String> = std::env::args().collect();
+    if args.len() == 4 && args[1] == "--long-chain" {
+        silence_panics();
+        let n: usize = args[2].parse().unwrap();
+        let stack: usize = args[3].parse().unwrap();
+        match long_chain(n, stack) {
+            Ok(()) => std::process::exit(0),
+            Err(what) => {
+                println!("{what}");
+                std::process::exit(3);
+            }
+        }
+    }
     silence_panics();
     let ctx: &'static vh::explore::Ctx = Box::leak(Box::new(vh::explore::Ctx::from_args("C13")));
     if let Some(replay) = &ctx.replay {
@@ -540,11 +574,12 @@ fn main() {
     }
     stats.add("sequential_sequences", stats.get("traces_validated_against_impl"));
     // long chains at the stated bound
-    for n in [1024usize, 4096] {
+    // (thousands of values; small stacks make recursion in lending or releasing visible)
+    for (n, stack) in [(1024usize, 64 * 1024usize), (4096, 64 * 1024), (4096, 2 * 1024 * 1024), (9000, 128 * 1024), (20000, 64 * 1024)] {
         stats.add("traces_validated_against_impl", 1);
         stats.add("transitions", n as u64);
-        if let Err(what) = long_chain(n) {
-            ctx.violation("long-chain", &format!("{n} values on a 2 MiB stack: {what}"), J::obj().set("long_chain", n));
+        if let Err(what) = long_chain_child(n, stack) {
+            ctx.violation("long-chain", &format!("{n} values on a {stack} byte stack: {what}"), J::obj().set("long_chain", n).set("stack", stack));
         }
     }
     // concurrent pushes
@@ -633,7 +668,7 @@ fn main() {
         J::obj()
             .set("sequence_length", len)
             .set("operations", "make_ref<P1>, make_ref<P2>, borrowed returns() call, answer using make_ref, provided method through the delegation helper, make_mut<P1>, answer using make_mut, &mut-receiver provided method; each on original or clone")
-            .set("long_chains", "1024 and 4096 values of alternating types on a 2 MiB stack")
+            .set("long_chains", "1024 .. 20000 values of alternating types on 64 KiB .. 2 MiB stacks, each in a child process (lending and releasing must need constant stack)")
             .set("concurrent", "2-3 threads x 1-3 make_ref on one shared &Unimock, all schedules at the OnceCell insertion points within the preemption bound"),
     );
     ctx.finish(
